@@ -228,8 +228,9 @@ class ColumnEnsembleClassifier(BaseColumnEnsembleClassifier):
     _required_parameters = ["estimators"]
 
     def __init__(self, estimators, remainder="drop", verbose=False):
-        self.remainder = remainder
         super(ColumnEnsembleClassifier, self).__init__(estimators, verbose=verbose)
+        # (after the base constructor, which sets its own default)
+        self.remainder = remainder
 
     def get_params(self, deep=True):
         """Get parameters for this estimator.
